@@ -23,8 +23,8 @@ type input struct {
 
 func hex64(v uint64) string { return fmt.Sprintf("%016X", v) }
 
-// rand64 returns a random 64-bit pattern whose exponent field (11 bits below the sign)
-// is forced to a boundary value one time in four.
+// randDouble returns a random 64-bit pattern; one time in four the exponent field is forced to
+// all zeros or all ones, one time in eight only a few low mantissa bits are kept.
 func randDouble(rng *rand.Rand) uint64 {
 	v := rng.Uint64()
 	switch rng.Intn(8) {
@@ -70,7 +70,7 @@ func randomPatterns(rng *rand.Rand, perKind int) []input {
 	var out []input
 	add := func(kind, lit string) { out = append(out, input{q: query{kind, lit}, tag: "random"}) }
 	for i := 0; i < perKind; i++ {
-		// half: only in thorough-size runs do random half patterns add anything; they are cheap
+		// half (already exhaustive in the spec vectors; kept so that all kinds take this path)
 		h := uint16(rng.Intn(65536))
 		add("half", fmt.Sprintf("0xH%04X", h))
 		// float: random pattern in the 16-digit double format
@@ -245,8 +245,6 @@ func decimalInputs(rng *rand.Rand, n int) []input {
 		// and next to a halfway point between normal doubles
 		w := math.Float64frombits(d &^ (0x7FF << 52) | uint64(1+rng.Intn(2045))<<52)
 		hw := new(big.Float).SetPrec(300).SetFloat64(w)
-		ulp := new(big.Float).SetPrec(300).SetMantExp(big.NewFloat(1), int(d>>52&0x7FF)) // any power of two; scaled below
-		_ = ulp
 		nx := new(big.Float).SetPrec(300).SetFloat64(math.Nextafter(w, math.Inf(1)))
 		hw.Add(hw, nx)
 		hw.Quo(hw, big.NewFloat(2))
